@@ -5,6 +5,9 @@
 // VH-REPLACES: lib/lha_arch_unix.c
 #define _GNU_SOURCE
 #include <unistd.h>
+#include <fcntl.h>
+#include <signal.h>
+#include <sys/stat.h>
 #include <sys/wait.h>
 #include "vh.h"
 #include "lib/lha_arch.h"
@@ -117,12 +120,15 @@ FILE *lha_arch_fopen(char *filename, int uid, int gid, int perms)
 }
 
 // ---------------------------------------------------------------- sources
-typedef struct { const uint8_t *data; size_t len, pos; unsigned long reads, moved; } CbSrc;
+typedef struct { const uint8_t *data; size_t len, pos; unsigned long reads, moved; long err_at; } CbSrc;
 
 static int cb_read(void *h, void *buf, size_t n)
 {
 	CbSrc *m = h;
 	size_t k = m->len - m->pos;
+	// kinds "cbskiperr:<off>" / "cbnoskiperr:<off>": from offset <off> on, every read reports an I/O error (-1, the documented value)
+	if (m->err_at >= 0 && (long) m->pos >= m->err_at) { ++m->reads; return -1; }
+	if (m->err_at >= 0 && (long) (m->pos + n) > m->err_at) n = (size_t) (m->err_at - (long) m->pos);
 	if (k > n) k = n;
 	memcpy(buf, m->data + m->pos, k);
 	m->pos += k; ++m->reads; m->moved += k;
@@ -158,7 +164,11 @@ static int rctx_open(RCtx *c, const char *kind, const char *policy, const char *
 	memset(c, 0, sizeof(*c));
 	c->pipe_child = -1;
 	if (!vh_parse_hex(hex, &c->a)) return 0;
-	c->cb.data = c->a.data; c->cb.len = c->a.len;
+	c->cb.data = c->a.data; c->cb.len = c->a.len; c->cb.err_at = -1;
+	{
+		const char *colon = strchr(kind, ':');
+		if (colon != NULL && strstr(kind, "err:") != NULL) c->cb.err_at = atol(colon + 1);
+	}
 	if (!strcmp(kind, "seek")) {
 		c->fh = tmpfile();
 		fwrite(c->a.data, 1, c->a.len, c->fh);
@@ -183,7 +193,7 @@ static int rctx_open(RCtx *c, const char *kind, const char *policy, const char *
 	}
 	trk_on = 1;
 	if (c->fh != NULL) c->stream = lha_input_stream_from_FILE(c->fh);
-	else if (!strcmp(kind, "cbskip")) c->stream = lha_input_stream_new(&cb_type_skip, &c->cb);
+	else if (!strncmp(kind, "cbskip", 6)) c->stream = lha_input_stream_new(&cb_type_skip, &c->cb);
 	else c->stream = lha_input_stream_new(&cb_type_noskip, &c->cb);
 	c->reader = c->stream ? lha_reader_new(c->stream) : NULL;
 	trk_on = 0;
@@ -325,6 +335,69 @@ int vh_ops_reader(int argc, char **argv)
 		}
 		free(ops);
 		rctx_close(&c);
+		vh_out(" live=%ld", trk_live);
+		return 1;
+	}
+	// rdrreopen <policy> <ops> <hex>: the SAME FILE object first on a regular file, then (freopen) on a FIFO fed by a child process:
+	// anything the library remembers about a FILE* from one stream to the next is wrong for the second
+	if (!strcmp(argv[0], "rdrreopen") && argc == 4) {
+		VhBytes a;
+		char dir[] = "/tmp/vh-reopen-XXXXXX", path[64], fifo[64];
+		FILE *fh;
+		int round, child = -1;
+		trk_count = 0; trk_live = 0; trk_n = 0; trk_bytes = 0; trk_peak_bytes = 0; trk_fail_at = -1;
+		if (!vh_parse_hex(argv[3], &a)) return 0;
+		if (mkdtemp(dir) == NULL) return 0;
+		snprintf(path, sizeof(path), "%s/a.lzh", dir);
+		snprintf(fifo, sizeof(fifo), "%s/f", dir);
+		fh = fopen(path, "wb"); fwrite(a.data, 1, a.len, fh); fclose(fh);
+		mkfifo(fifo, 0600);
+		fh = fopen(path, "rb");
+		for (round = 0; round < 2; ++round) {
+			RCtx c;
+			char *ops, *tok, *save;
+			int first = 1;
+			if (round == 1) {
+				fflush(stdout);
+				child = fork();
+				if (child == 0) {
+					int fd = open(fifo, O_WRONLY);
+					size_t off = 0;
+					while (fd >= 0 && off < a.len) {
+						ssize_t w = write(fd, a.data + off, a.len - off);
+						if (w <= 0) break;
+						off += (size_t) w;
+					}
+					_exit(0);
+				}
+				fh = freopen(fifo, "rb", fh);
+				if (fh == NULL) break;
+			}
+			memset(&c, 0, sizeof(c));
+			c.pipe_child = -1;
+			c.fh = fh;
+			trk_on = 1;
+			c.stream = lha_input_stream_from_FILE(fh);
+			c.reader = c.stream ? lha_reader_new(c.stream) : NULL;
+			trk_on = 0;
+			if (c.reader == NULL) break;
+			if (!strcmp(argv[1], "plain")) lha_reader_set_dir_policy(c.reader, LHA_READER_DIR_PLAIN);
+			else if (!strcmp(argv[1], "eof")) lha_reader_set_dir_policy(c.reader, LHA_READER_DIR_END_OF_FILE);
+			else lha_reader_set_dir_policy(c.reader, LHA_READER_DIR_END_OF_DIR);
+			vh_out(round == 0 ? "A:" : "|B:");
+			ops = strdup(argv[2]);
+			for (tok = strtok_r(ops, ";", &save); tok; tok = strtok_r(NULL, ";", &save)) {
+				if (!first) vh_out(";");
+				first = 0;
+				rctx_step(&c, tok);
+			}
+			free(ops);
+			trk_on = 1; lha_reader_free(c.reader); lha_input_stream_free(c.stream); trk_on = 0;
+		}
+		if (fh != NULL) fclose(fh);
+		if (child > 0) { int st; kill(child, SIGKILL); waitpid(child, &st, 0); }
+		unlink(path); unlink(fifo); rmdir(dir);
+		free(a.data);
 		vh_out(" live=%ld", trk_live);
 		return 1;
 	}
